@@ -45,7 +45,11 @@ func main() {
 		if *dumpInl != "" {
 			for _, f := range p.Funcs {
 				if funcFullName(f) == *dumpInl {
-					p.Inlined(f, nil).WriteTo(os.Stdout)
+					if os.Getenv("VLDUMP") == "built" {
+						f.WriteTo(os.Stdout) // the function as loaded (after the normalisation pass)
+					} else {
+						p.Inlined(f, nil).WriteTo(os.Stdout)
+					}
 				}
 			}
 			return
